@@ -206,6 +206,12 @@ class RF:
                         inner = mapping[k[k.index("(") + 1:-1]].canon()
                         k2 = f"{k[:k.index('(')]}({inner})"
                         term = term * RF({((k2, e),): Fraction(1)})
+                    elif k in _FUNC_ARGS and any(s in k for s in mapping):
+                        # f(<argument>) with symbols of the argument
+                        # replaced: the atom of the substituted argument
+                        fname_, arg_ = _FUNC_ARGS[k]
+                        term = term * func_atom(
+                            fname_, arg_.subs(mapping)).pow(e)
                     elif k.startswith(("{", "tan(", "sin(", "cos(", "exp(",
                                        "log(")) and any(
                                            s in k for s in mapping):
@@ -252,8 +258,13 @@ class RF:
 FUNCS = {"tan", "sin", "cos", "exp", "log", "arctan", "tanh"}
 
 
+_FUNC_ARGS = {}   # atom text -> (function name, argument RF)
+
+
 def func_atom(name, arg: RF) -> RF:
-    return RF({((f"{name}({arg.canon()})", Fraction(1)),): Fraction(1)})
+    key = f"{name}({arg.canon()})"
+    _FUNC_ARGS[key] = (name, arg)
+    return RF({((key, Fraction(1)),): Fraction(1)})
 
 
 # ---------------------------------------------------------------------------
